@@ -139,6 +139,33 @@ def nan_mean_per_model(evaluations):
     return np.array(out)
 
 
+def _nan_mean_list(vals):
+    vals = [v for v in vals if not math.isnan(v)]
+    return sum(vals) / len(vals) if vals else float('nan')
+
+
+def _collapse_trailing(block):
+    """NaN-aware mean of a nested list, one axis at a time starting with the LAST axis (mean of
+    means: repetitions first, then folds, ...)"""
+    if not isinstance(block, list):
+        return block
+    if block and isinstance(block[0], list):
+        return _nan_mean_list([_collapse_trailing(b) for b in block])
+    return _nan_mean_list(block)
+
+
+def nan_mean_axiswise(evaluations):
+    """per-model mean as Result.get_means documents it: every (sample, model) block is averaged over
+    its further axes one axis at a time (NaN-aware), then the samples that could be evaluated are
+    averaged.  Equals nan_mean_per_model when NaNs come as whole samples / evenly."""
+    ev = np.asarray(evaluations, dtype=float)
+    out = []
+    for j in range(ev.shape[1]):
+        per_sample = [_collapse_trailing(ev[s, j].tolist()) for s in range(ev.shape[0])]
+        out.append(_nan_mean_list(per_sample))
+    return np.array(out)
+
+
 # ----------------------------------------------------------------------------- t statistics
 def classical_tests_batch(per_subject, ceilings):
     """per_subject: K x m x n_subject evaluations of K independent cases, ceilings: K values.
